@@ -1484,6 +1484,13 @@ func (e *Exec) callContract(st *State, call *ast.CallExpr, fn *types.Func, c *Co
 		if c.Trusted != "" {
 			why += " — " + c.Trusted
 		}
+		if len(c.ProvedFor) > 0 {
+			ps := append([]string{}, c.ProvedFor...)
+			sortStrings(ps)
+			why += " — assumed at interface call sites; proved for " + strings.Join(ps, ", ") + " (its conform-* obligations, property C16)"
+		} else if c.NoBody && !strings.Contains(c.Key, ".") == false && c.Trusted == "" {
+			why += " — interface or external method: assumed, no implementation is verified against it"
+		}
 		e.Assumed[why] = true
 	}
 	e.UsedContracts[c.Pkg+":"+c.Key] = true
